@@ -283,7 +283,7 @@ func probeState(c *vlib.Ctx, st *stats, cov *chainCov, sim *chain.Sim, tk *track
 		judge(c, st, h, p, oo)
 	}
 	// parents created earlier in the block under validation (InBlock.tla)
-	if jo.v2txn {
+	if jo.v2txn && rng.Intn(2) == 0 {
 		inBlock(c, st, h, ibCases, cur, rng, ctx)
 	}
 	targets := cur
@@ -418,7 +418,7 @@ func runChains(c *vlib.Ctx, st *stats, cov *chainCov, o judgeOpts) (behaviours, 
 	var mu sync.Mutex
 	trackers := map[*chain.Sim]*tracker{}
 	rngs := map[*chain.Sim]*rand.Rand{}
-	v2budget := c.Pick(60, 400)
+	v2budget := c.Pick(44, 200)
 	extend := c.Pick(64, 200)
 	opts := chain.RunOpts{Num: c.Pick(48, 400), Depth: 56, Timeout: 20 * time.Minute,
 		KeyOf: func(m chain.Mismatch) string { return "ledger/" + m.Kind + "/" + m.Tag },
